@@ -50,3 +50,25 @@ Theorem C12_model_satisfies_oracles : forall t fs cfg name src fmt copier o fin 
   let c := model_case t fs cfg name src fmt copier in
   c14_ok false c = true /\ c12_ok c = true.
 Proof. exact model_case_oracles. Qed.
+
+(** "-D NAME=VALUE acts as a constant definition visible to the whole program": assembling a program
+    with the defines pre-bound (what cli.py does with its evaluated -D values) IS assembling the
+    statements NAME := VALUE (one per define, in order) followed by the program with no defines: the
+    whole result is equal — blocks, labels, final symbol table, error class and error site — for every
+    program, every list of names (repeated names included: the later one wins in both) and every
+    integer value.  And the command line's evaluation of its -D texts is the fold of the expression
+    evaluator over the list with the root scope growing by each earlier define. *)
+From A816 Require Import Proofs.DefineConst.
+Theorem C12_defines_are_constants : forall w rom ds fi prog,
+  assemble_program w {| cf_rom := rom; cf_defines := ds |} prog =
+  assemble_program w {| cf_rom := rom; cf_defines := [] |} (define_stmts ds fi ++ prog).
+Proof. exact defines_are_constants. Qed.
+Theorem C12_define_literal : forall w v r, eval_raw w r (lit_of_Z v) = Ok v.
+Proof. intros w v r. apply lit_of_Z_closed. Qed.
+Theorem C12_cli_defines : forall w prec defs r, resolver_init w = Ok r ->
+  eval_defines prec defs [] = eval_defines_r prec r defs [].
+Proof. exact eval_defines_cli. Qed.
+
+Print Assumptions C12_defines_are_constants.
+Print Assumptions C12_define_literal.
+Print Assumptions C12_cli_defines.
